@@ -115,7 +115,7 @@ func findTarShape(p *load.Program) *tarShape {
 
 func runC12(c *core.Ctx) {
 	runFixtures(c, "drop", "valid", "read")
-	c.Explain("Structural clauses of C12 decided from source (thin: contents, modes, 'nothing else' and writer schedules are behaviour): (R12.1) every read of archive/tar.Header.Name in package tar is passed through the normaliser (path.Clean + leading-\"/\" trim) and the normalised name reaches only calls on the destination file system (interface methods, FS helpers), the announce key and path.Dir — package tar contains no primitive sink, so an escaping '../x' is refused by the destination's own validation (C04/A1); (R12.2) the error of every destination-FS call and every copy step in the unpack functions and their background closures propagates: returned, wrapped, or sent on the error channel whose receive ends the unpack with that error (accepted: errors.Is(ErrExist) on Mkdir of a directory entry, which continues with Chmod; io.EOF on the tar stream); (R12.3) on that ErrExist edge Chmod is called with the header's mode; (R12.4) the destination calls for an entry are made after the success edge of creating its parent path; (R12.5) every buffer taken from a pool is given back on every path that does not end the unpack with an error, closure continuations included, and no path (callees and spawned writers counted) gives the same buffer back twice — a buffer that is in the pool twice is handed to two later entries, whose bytes then mix; (R12.6) the normaliser applies path.Clean to the entry name itself: cleaning a string with '/' prepended silently drops leading '..' elements, so an entry that resolves outside the root would be unpacked inside it instead of failing the unpack; (R12.7) the Mkdir/Chmod of a directory entry runs in the read loop itself, not in a spawned writer: in the background it races with the next entry's preparation of the same directory as a parent (0700), and the header's mode can be lost depending on the schedule; (R12.8) the blocking select that ends the unpack ('an error, or all writers done') polls the error channel again on the done branch before it reports success, because both cases can be ready at once. (R12.9) every direct Read call in package tar is a delegation, a call of the package's own full reader, or a loop that is left only on an error / a full buffer and whose successful returns looked at the count of the latest Read (the last chunk of an entry arrives together with io.EOF). (R12.10) the entry-processing function returns nil only on paths that created the directory entry on the destination, called the writer or spawned a background writer; (R12.11) the write methods of the key-value handle (the default destination is mem.FS) never store the caller's buffer, only copy from it — the reader returns its buffers to a pool as soon as Write returns. NOT claimed: the resulting tree.")
+	c.Explain("Structural clauses of C12 decided from source (thin: contents, modes, 'nothing else' and writer schedules are behaviour): (R12.1) every read of archive/tar.Header.Name in package tar is passed through the normaliser (path.Clean + leading-\"/\" trim) and the normalised name reaches only calls on the destination file system (interface methods, FS helpers), the announce key and path.Dir — package tar contains no primitive sink, so an escaping '../x' is refused by the destination's own validation (C04/A1); (R12.2) the error of every destination-FS call and every copy step in the unpack functions and their background closures propagates: returned, wrapped, or sent on the error channel whose receive ends the unpack with that error (accepted: errors.Is(ErrExist) on Mkdir of a directory entry, which continues with Chmod; io.EOF on the tar stream); (R12.3) on that ErrExist edge Chmod is called with the header's mode; (R12.4) the destination calls for an entry are made after the success edge of creating its parent path; (R12.5) every buffer taken from a pool is given back on every path that does not end the unpack with an error, closure continuations included, and no path (callees and spawned writers counted) gives the same buffer back twice — a buffer that is in the pool twice is handed to two later entries, whose bytes then mix; (R12.6) the normaliser applies path.Clean to the entry name itself: cleaning a string with '/' prepended silently drops leading '..' elements, so an entry that resolves outside the root would be unpacked inside it instead of failing the unpack; (R12.7) the Mkdir/Chmod of a directory entry runs in the read loop itself, not in a spawned writer: in the background it races with the next entry's preparation of the same directory as a parent (0700), and the header's mode can be lost depending on the schedule; (R12.8) the blocking select that ends the unpack ('an error, or all writers done') polls the error channel again on the done branch before it reports success, because both cases can be ready at once. (R12.9) every direct Read call in package tar is a delegation, a call of the package's own full reader, or a loop that is left only on an error / a full buffer and whose successful returns looked at the count of the latest Read (the last chunk of an entry arrives together with io.EOF). (R12.10) the entry-processing function returns nil only on paths that created the directory entry on the destination, called the writer or spawned a background writer; (R12.11) the write methods of the key-value handle (the default destination is mem.FS) never store the caller's buffer, only copy from it — the reader returns its buffers to a pool as soon as Write returns. (R12.12) the buffer pool reserves a slot only where count == cap is excluded. NOT claimed: the resulting tree.")
 	c.Assume("A1: the destination file system rejects names that would escape its root", "A2: archive/tar, path, io behave as documented")
 	c.RuleDoc("R12.1", "header names normalised and only delegated")
 	c.RuleDoc("R12.2", "a refused or failing entry fails the unpack")
@@ -124,6 +124,7 @@ func runC12(c *core.Ctx) {
 	c.RuleDoc("R12.5", "pool buffers are returned, once")
 	c.RuleDoc("R12.8", "the final wait re-checks the error channel when the writers' completion wins the select")
 	c.RuleDoc("R12.7", "directory entries are created in the foreground")
+	c.RuleDoc("R12.13", "a PAX global header is not materialised as an entry")
 	c.RuleDoc("R12.12", "the buffer pool never provisions more buffers than its channel holds (unpacking finishes)")
 	c.RuleDoc("R12.10", "an entry is reported done only after it was created, written or handed to a writer")
 	c.RuleDoc("R12.11", "the default destination (mem/keyvalue) copies written bytes: the reader recycles its buffers (= R02.16)")
@@ -145,6 +146,7 @@ func runC12(c *core.Ctx) {
 		readDiscipline(c, p, "R12.9", pkgFuncs(p, "tar"))
 		r12EveryEntryProcessed(c, p, sh)
 		r12PoolBound(c, p, "R12.12")
+		r12SkipsGlobalHeader(c, p, sh)
 		if fileT := p.Named("keyvalue", "file"); fileT != nil {
 			r02NoAdopt(c, p, fileT, "R12.11")
 		} else {
@@ -162,6 +164,7 @@ func runC12(c *core.Ctx) {
 	c.Floor("R12.9", 1)
 	c.Floor("R12.10", 1)
 	c.Floor("R12.12", 1)
+	c.Floor("R12.13", 1)
 	c.Floor("R12.11", 3)
 }
 
@@ -962,4 +965,51 @@ func r12PoolBound(c *core.Ctx, p *load.Program, rule string) {
 	if n == 0 {
 		c.Hard("anchor: slot reservation (CompareAndSwap) of the tar buffer pool")
 	}
+}
+
+// r12SkipsGlobalHeader (R12.13): the read loop hands an archive/tar header to the entry processor only where its
+// Typeflag is known not to be TypeXGlobalHeader: archive/tar returns a PAX global header ('g', written by
+// `git archive`) as an entry named pax_global_header; it describes the entries that follow and is not a member of the
+// tree — materialised, the file system holds a file the archive's tree does not ("and nothing else").
+func r12SkipsGlobalHeader(c *core.Ctx, p *load.Program, sh *tarShape) {
+	fn := sh.readErr
+	var call *ssa.Call
+	ssax.Instrs(fn, func(ins ssa.Instruction) {
+		if cl, ok := ins.(*ssa.Call); ok && ssax.StaticCallee(cl) == sh.process {
+			call = cl
+		}
+	})
+	if call == nil {
+		c.Hard("anchor: call of the entry processor in the read loop")
+		return
+	}
+	excluded := false
+	for _, f := range ssax.FactsAtInstr(call) {
+		bo, ok := f.Cond.(*ssa.BinOp)
+		if !ok || bo.Op != token.EQL && bo.Op != token.NEQ {
+			continue
+		}
+		var other ssa.Value
+		isFlag := func(v ssa.Value) bool {
+			u, ok := v.(*ssa.UnOp)
+			if !ok {
+				return false
+			}
+			fa, ok := u.X.(*ssa.FieldAddr)
+			return ok && ssax.FieldName(fa) == "Typeflag"
+		}
+		switch {
+		case isFlag(bo.X):
+			other = bo.Y
+		case isFlag(bo.Y):
+			other = bo.X
+		default:
+			continue
+		}
+		if k, isK := ssax.ConstInt(other); isK && k == 'g' && (bo.Op == token.EQL) != f.Val {
+			excluded = true
+		}
+	}
+	c.Check(excluded, "R12.13", fname(fn)+"|global-header-not-processed", p.Pos(call.Pos()), "the entry processor is called only where Typeflag != TypeXGlobalHeader",
+		fmt.Sprintf("%s hands every header archive/tar returns to the entry processor, the PAX global header included: an archive written by `git archive` unpacks an extra empty file pax_global_header that is no entry of the archive's tree", fname(fn)))
 }
